@@ -105,7 +105,9 @@ MkDeclG(s) ==
       d1 == [d0 EXCEPT !.method = Method(s.meth, N, s.M, "rk", GridG(s)),
                        !.reads = <<Read("C06.e", "sample", Tm, "control"), Read("C06.e", "sample", Tm, "integrator"),
                                    Read("C06.e", "sample", DTs, "control"), Read("C06.e", "sample", DTc, "control"),
-                                   Read("C06.e", "sample", DTs, "integrator"), Read("C06.e", "sample", DTc, "integrator")>>]
+                                   Read("C06.e", "sample", DTs, "integrator"), Read("C06.e", "sample", DTc, "integrator"),
+                                   \* the state of a system with explicit time: which grid the *dynamics* see
+                                   Read("C06.e", "sample", X(1), "control"), Read("C06.e", "sample", X(1), "integrator")>>]
   IN WithHorizon(d1, s.hz, IF s.seed % 2 = 0 THEN One ELSE Q(-1, 2), TBase(IF s.grid = "free" THEN "uni" ELSE s.grid, N))
 
 MkProbeG(d, s) ==
@@ -140,29 +142,41 @@ Row2 == <<<<X(1), X(2)>>>>
 Mat22 == <<<<Times(X(1), Tm), U(1)>>, <<P(1), TT>>>>
 MatX == <<<<X(1), X(3)>>, <<X(2), X(4)>>>>              \* the 2x2 matrix state of R8 itself
 MatPX == <<<<Times(P(1), X(1)), Times(P(3), X(3))>>, <<Times(P(2), X(2)), Times(P(4), X(4))>>>>
+QRhs == {"R8", "R4", "R9"}
 ReadsC07(s) ==
   LET grids == IF s.meth = "DC" THEN <<"control", "control-", "integrator", "roots">> ELSE <<"control", "control-", "integrator">>
       matsZ == <<<<<<Z(1)>>>>, <<<<Plus(Times(Z(1), X(1)), Tm)>>>>, <<<<Z(1), X(1)>>>>>>      \* algebraic variable (R6)
       matsP == <<<<<<Plus(Times(P(1), X(1)), U(1))>>>>, <<<<P(1), Tm>>>>>>                   \* per-interval parameters (R4, RA)
-      mats == IF s.rhs = "R6" THEN matsZ ELSE IF s.rhs \in {"R4", "RA"} THEN matsP ELSE IF s.rhs = "R8" THEN <<<<<<E1>>>>, Col2, Row2, Mat22, MatX, MatPX>> ELSE <<<<<<E1>>>>, <<<<E2>>>>, <<<<E3>>>>, <<<<E4>>>>, Col2, Row2, Mat22>>
+      matsV == <<<<<<Plus(Times(V(1), X(1)), V(2))>>>>, <<<<V(2), V(1)>>, <<V(3), Tm>>>>>>        \* per-interval variables of both kinds (RC)
+      matsZ3 == <<<<<<Z(3)>>>>, <<<<Z(1), Z(2)>>, <<Z(3), X(1)>>>>, <<<<Plus(Times(Z(3), X(1)), Z(2))>>>>>>      \* vector algebraic + scalar algebraic (RD)
+      mats == IF s.rhs = "R6" THEN matsZ ELSE IF s.rhs = "RD" THEN matsZ3 ELSE IF s.rhs \in {"R4", "RA"} THEN matsP ELSE IF s.rhs = "RC" THEN matsV ELSE IF s.rhs \in {"R8", "R9"} THEN <<<<<<E1>>>>, Col2, Row2, Mat22, MatX, MatPX>> \o (IF s.rhs = "R9" THEN <<<<<<X(5), P(5)>>>>>> ELSE <<>>) ELSE <<<<<<E1>>>>, <<<<E2>>>>, <<<<E3>>>>, <<<<E4>>>>, Col2, Row2, Mat22>>
   IN Flat(Tup([gi \in 1..Len(grids) |-> Tup([mi \in 1..Len(mats) |-> MRead("C07.a", "msample", mats[mi], grids[gi])])]))
      \o <<MRead("C07.b", "mvalue", <<<<Plus(Times(TT, CI(3)), T0)>>>>, ""), MRead("C07.b", "mvalue", <<<<TT, T0>>, <<TF, CI(1)>>>>, "")>>
      \* integrator grid with refine (explicit schemes and exact collocation schemes have a dense output)
      \o (IF s.rhs \in {"R4", "RA"} THEN <<RRead("C07.a", Plus(Times(P(1), X(1)), U(1)), 2), RRead("C07.a", P(Len(Rhs(s.rhs, s.N).params)), 3)>>
+         ELSE IF s.rhs = "RC" THEN <<RRead("C07.a", V(1), 2), RRead("C07.a", V(2), 3), RRead("C07.a", Plus(Times(V(2), X(1)), V(1)), 2)>>
          ELSE <<RRead("C07.a", E1, 2)>>)
      \o <<RRead("C07.a", Plus(Times(X(1), TT), Times(CI(3), T0)), 2)>>      \* horizon symbols inside a refined sample
+     \* user-declared quadrature states: the running integral at the nodes and at the integrator points
+     \o (IF s.rhs \in QRhs
+         THEN <<MRead("C07.a", "msample", <<<<QS(1)>>>>, "control"), MRead("C07.a", "msample", <<<<QS(1)>>>>, "integrator"),
+                MRead("C07.a", "msample", <<<<Plus(QS(2), Times(X(1), Tm)), QS(1)>>>>, "integrator"),
+                MRead("C07.a", "msample", <<<<Plus(QS(2), Times(X(1), Tm))>>>>, "control-")>>
+         ELSE <<>>)
 
 MkDeclS(s) ==
   LET N == s.N
       d0 == Rhs(s.rhs, N)
       d1 == [d0 EXCEPT !.method = IF s.meth = "DC" THEN MethodDC(N, s.M, "radau", 2, GridOf(s.grid, N))
                                   ELSE Method(s.meth, N, s.M, "rk", GridOf(s.grid, N)),
-                       !.reads = ReadsC07(s)]
+                       !.reads = ReadsC07(s),
+                       !.quads = IF s.rhs \in QRhs THEN <<Q1, Q2>> ELSE @,
+                       !.qstates = s.rhs \in QRhs]
   IN WithHorizon(d1, s.hz, IF s.seed % 2 = 0 THEN One ELSE Q(-1, 2), TBase(s.grid, N))
 
-SpaceS == {s \in [rhs : {"R3v", "R8", "R6", "R4", "RA"}, meth : {"MS", "SS", "DC"}, N : 1..(IF Thorough THEN 3 ELSE 2), M : 1..2, grid : {"uni", "geo"},
+SpaceS == {s \in [rhs : {"R3v", "R8", "R9", "R6", "RD", "R4", "RA", "RC"}, meth : {"MS", "SS", "DC"}, N : 1..(IF Thorough THEN 3 ELSE 2), M : 1..2, grid : {"uni", "geo"},
                   hz : {"num", "fb"}, seed : IF Thorough THEN {Seed, Seed + 1} ELSE {Seed}, cons : {<<>>}, obj : {<<>>}] :
-              (s.rhs = "R6" => s.meth = "DC")}
+              (s.rhs \in {"R6", "RD"} => s.meth = "DC")}
 
 (***************************************************************************)
 (* C10 family: guesses.  C14: scales.  C11: free horizons.  C09: parameter *)
@@ -174,7 +188,7 @@ Gcols(sym, vals, np) == [sym |-> sym, form |-> "cols", e |-> CI(0), vals |-> val
 SymT == [op |-> "T", i |-> 0]
 SymT0 == [op |-> "t0", i |-> 0]
 Ramp(n) == Tup([c \in 1..n |-> Q(2 * c - 3, 2)])
-GuessIds == {"Tfirst", "none", "xc", "xe", "xcols", "uc", "ue", "ucolsN", "ucolsNp", "vcols", "ve", "vg", "T", "t0", "twice", "mix", "z"}
+GuessIds == {"z3", "Tfirst", "none", "xc", "xe", "xcols", "uc", "ue", "ucolsN", "ucolsNp", "vcols", "ve", "vg", "T", "t0", "twice", "mix", "z"}
 GuessSeq(id, d, N) ==
   LET hasV == Len(d.vars) >= 2
       hasZ == Len(d.algs) >= 1
@@ -195,6 +209,7 @@ GuessSeq(id, d, N) ==
        [] id = "mix"     -> <<Ge(X(1), Times(Tm, Tm)), Gcols(U(1), Ramp(N), FALSE)>>
                             \o (IF d.T.kind = "free" THEN <<Gc(SymT, Q(3, 1))>> ELSE <<>>)
        [] id = "Tfirst"  -> IF d.T.kind = "free" THEN <<Gc(SymT, Q(3, 1)), Ge(X(1), Times(Tm, Tm)), Ge(U(1), Minus(Tm, TT))>> ELSE <<>>
+       [] id = "z3"      -> IF Len(d.algs) >= 3 THEN <<Gc(Z(3), Q(5, 2)), Gc(X(1), Q(1, 2))>> ELSE <<>>
        [] id = "z"       -> IF hasZ THEN <<Ge(Z(1), Plus(Tm, CI(2))), Gc(X(1), Q(1, 2))>> ELSE <<>>
 
 ScaleSets == {"s0", "s1", "s2"}
@@ -224,7 +239,7 @@ MkDeclX(s) ==
                        !.obj = Tup([i \in 1..Len(s.obj) |-> IF s.obj[i] = "oP" THEN OP ELSE ObjOf(s.obj[i])]),
                        !.quads = IF \E i \in 1..Len(s.obj) : s.obj[i] = "o6" THEN <<Q1>> ELSE <<>>,
                        !.reads = <<Read("C07.b", "value", TT, ""), Read("C07.b", "value", T0, ""), Read("C07.b", "value", TF, "")>>
-                                 \o (IF Family = "C09" /\ s.rhs # "R8" THEN <<Read("C09.c", "sample", P(1), "control")>> ELSE <<>>)]
+                                 \o (IF Family = "C09" /\ s.rhs \notin {"R8", "R9"} THEN <<Read("C09.c", "sample", P(1), "control")>> ELSE <<>>)]
       d2 == WithHorizon(d1, s.hz, IF s.seed % 2 = 0 THEN One ELSE Q(-1, 2), TBase(IF s.grid = "free" THEN "uni" ELSE s.grid, N))
       d3 == [d2 EXCEPT !.init = GuessSeq(s.gs, d2, N)]
   IN WithScales(d3, s.scl)
@@ -241,10 +256,11 @@ MkProbeX(d, s) ==
 XFields == [lT : {FALSE}, gs : {"none"}, scl : {"s0"}, when : {"before"}]
 SpaceX ==
   CASE Family = "C10" ->
-         {s \in [rhs : {"R2", "R3", "R6"}, meth : {"MS", "SS", "DC"}, intg : {"rk", "radau2"}, N : 2..3, M : 1..2, grid : {"uni", "geo", "free"},
+         {s \in [rhs : {"R2", "R3", "R6", "RD"}, meth : {"MS", "SS", "DC"}, intg : {"rk", "radau2"}, N : 2..3, M : 1..2, grid : {"uni", "geo", "free"},
                  hz : {"num", "fb"}, seed : {Seed}, cons : {<<>>}, obj : {<<>>}, lT : BOOLEAN, gs : GuessIds, scl : {"s0"},
                  when : {"before", "after", "split"}] :     \* split: the last guess is given after a transcription, the others before
-              /\ (s.meth = "DC" <=> s.intg = "radau2") /\ (s.rhs = "R6" => s.meth = "DC")
+              /\ (s.meth = "DC" <=> s.intg = "radau2") /\ (s.rhs \in {"R6", "RD"} => s.meth = "DC")
+              /\ (s.rhs = "RD" <=> s.gs = "z3")
               /\ (s.when = "split" => s.gs \in {"twice", "mix", "Tfirst", "z"})
               \* localized / free grids: their own time variables start on the guessed grid
               /\ (s.lT \/ s.grid = "free" => s.rhs = "R2" /\ s.when = "before" /\ s.gs \in {"none", "xe", "T", "t0", "mix"})
@@ -261,7 +277,7 @@ SpaceX ==
               /\ (s.meth = "DC" <=> s.intg \in {"radau2", "legendre1"})
               /\ (s.lT => s.grid \in {"uni", "geo"})}
     [] Family = "C09" ->
-         {s \in [rhs : {"R2", "R3", "R4", "R8", "RA"}, meth : {"MS", "SS", "DC"}, intg : {"rk", "radau2"}, N : 1..3, M : 1..2, grid : {"uni", "fun"},
+         {s \in [rhs : {"R2", "R3", "R4", "R8", "R9", "RA"}, meth : {"MS", "SS", "DC"}, intg : {"rk", "radau2"}, N : 1..3, M : 1..2, grid : {"uni", "fun"},
                  hz : {"num", "pT", "fT"}, seed : {Seed, Seed + 1}, cons : {<<"kP", "kQ">>, <<"kP", "kN">>}, obj : {<<"oP", "o3">>, <<"o6", "oP">>}, lT : {FALSE},
                  gs : {"none"}, scl : {"s0"}, when : {"before"}] :
               /\ (s.meth = "DC" <=> s.intg = "radau2")
@@ -292,11 +308,12 @@ MkDeclR(s) ==
                                   ELSE Method(s.meth, N, s.M, s.intg, GridOf(s.grid, N)),
                        !.obj = <<O1, O3>>,    \* makes every decision variable an active NLP variable (sampler works on the gist)
                        !.reads = (IF Len(d0.params) > 0 THEN <<RRead("C08.c", Plus(Times(P(1), X(1)), U(1)), s.refine)>> ELSE <<>>) \o
+                                 (IF s.rhs = "RC" THEN <<RRead("C08.c", Plus(Times(V(2), X(1)), V(1)), s.refine)>> ELSE <<>>) \o
                                  <<RRead("C08.c", X(1), s.refine), RRead("C08.c", ex, s.refine), RRead("C08.c", Tm, s.refine),
                                    Read("C08.a", "sample", X(1), "integrator"), Read("C08.a", "sample", X(1), "control"),
                                    SRead("C08.i", X(1), QueryTimes(N, s.M)), SRead("C08.i", Plus(Sq(X(1)), Times(U(1), Tm)), QueryTimes(N, s.M))>>]
   IN WithHorizon(d1, s.hz, IF s.seed % 2 = 0 THEN One ELSE Q(-1, 2), TBase(s.grid, N))
-SpaceR == {s \in [rhs : {"R1", "R2", "R3", "R4", "R5", "RA"}, meth : {"MS", "SS", "DC"}, intg : {"rk", "expl_euler", "radau1", "radau2", "legendre1"},
+SpaceR == {s \in [rhs : {"R1", "R2", "R3", "R4", "R5", "RA", "RC"}, meth : {"MS", "SS", "DC"}, intg : {"rk", "expl_euler", "radau1", "radau2", "legendre1"},
                   N : 1..(IF Thorough THEN 3 ELSE 2), M : 1..2, grid : {"uni", "geo", "fun"}, hz : {"num", "fT"}, refine : 1..(IF Thorough THEN 7 ELSE 4),
                   seed : {Seed}, cons : {<<>>}, obj : {<<>>}] :
               /\ (s.meth = "DC" <=> s.intg \in {"radau1", "radau2", "legendre1"})
@@ -344,17 +361,17 @@ Wellformed(s) ==
 
 Space ==
   CASE Family = "C01" ->
-         {s \in [rhs : RhsIds \cup {"RA", "RB"}, meth : {"MS", "SS"}, intg : {"rk", "expl_euler"}, N : 1..MaxN, M : 1..3,
+         {s \in [rhs : RhsIds \cup {"RA", "RB", "RC", "R9"}, meth : {"MS", "SS"}, intg : {"rk", "expl_euler"}, N : 1..MaxN, M : 1..3,
                  grid : {"uni", "geo", "geoL", "fun"}, hz : {"num", "fT", "ft0", "fb", "pT"},
                  seed : {Seed, Seed + 1}, cons : {<<>>}, obj : {<<>>}] : Wellformed(s) /\ (s.M = 3 => s.grid \in {"uni", "geo"} /\ s.hz \in {"num", "fb"})}
     [] Family = "C02" ->
-         {s \in [rhs : {"R1", "R2", "R3", "R4", "R6"}, meth : {"DC"}, intg : {"radau1", "radau2", "legendre1"}, N : 1..MaxN, M : 1..MaxM,
+         {s \in [rhs : {"R1", "R2", "R3", "R4", "R6", "RD"}, meth : {"DC"}, intg : {"radau1", "radau2", "legendre1"}, N : 1..MaxN, M : 1..MaxM,
                  grid : {"uni", "geo", "fun"}, hz : {"num", "fT", "fb"},
                  seed : IF Thorough THEN {Seed, Seed + 1} ELSE {Seed}, cons : {<<>>, <<"kR", "k7">>, <<"kS", "k1">>}, obj : {<<>>, <<"o6", "o1">>}] : Wellformed(s)}
     [] Family = "C04" ->
          {s \in [rhs : {"R2", "R3", "RB", "R4"}, meth : {"MS", "SS", "DC"}, intg : {"rk", "radau2"}, N : 1..MaxN, M : 1..MaxM,
                  grid : {"uni", "fun"}, hz : {"num", "fT"},
-                 seed : {Seed}, cons : ConSets \cup {<<"k8", "kR">>, <<"k7", "kS", "k2">>, <<"kV">>, <<"kV", "k6">>, <<"kM", "k1">>, <<"kMp">>, <<"kW", "kX">>}, obj : {<<>>}] :
+                 seed : {Seed}, cons : ConSets \cup {<<"k8", "kR">>, <<"k7", "kS", "k2">>, <<"kV">>, <<"kV", "k6">>, <<"kM", "k1">>, <<"kMp">>, <<"kW", "kX">>, <<"kC", "kD">>}, obj : {<<>>}] :
               /\ Wellformed(s) /\ (s.meth = "DC" <=> s.intg = "radau2")
               /\ (s.rhs = "RB" <=> s.cons = <<"kM", "k1">>) /\ (s.rhs = "R4" <=> s.cons = <<"kMp">>)
               /\ (s.meth # "DC" => \A i \in 1..Len(s.cons) : s.cons[i] \notin {"kR", "kS"})}
